@@ -126,6 +126,13 @@ func (c *codegen) call(x *ast.CallExpr, want gtype) (string, gtype) {
 		}
 		// method call on a struct value
 		if c.phase2 {
+			if irecv, ik, isIface := c.ifaceCallee(x); isIface {
+				vals, types := c.ifaceCall(irecv, ik, x)
+				if len(vals) != 1 {
+					c.fail(x, "call of %s.%s, which has %d results, used as a value", ik.goName, ik.meth, len(vals))
+				}
+				return vals[0], types[0]
+			}
 			k, recv, ok := c.calleeOf(x)
 			if !ok {
 				c.fail(x, "call %s", c.src(x))
@@ -435,6 +442,9 @@ func (c *codegen) seq(list []ast.Stmt, k cont) []string {
 	if len(c.cur.pre) != 0 || len(c.cur.mutHoist) != 0 {
 		c.fail(s, "internal error: hoisted lines left over from the previous statement")
 	}
+	if c.phase5 {
+		c.noteBlockLabels(list, k) // code_parse.go: goto targets inside nested blocks
+	}
 	wrap := func(lines []string) []string {
 		return append(append(c.flush(s), lines...), c.seq(rest, k)...)
 	}
@@ -498,6 +508,10 @@ func (c *codegen) seq(list []ast.Stmt, k cont) []string {
 				// reached by falling through: the label itself has no effect
 				return c.seq(append([]ast.Stmt{x.Stmt}, rest...), k)
 			}
+		}
+		if c.phase5 && c.cur.blockLabels[x.Label.Name] != nil {
+			// code_parse.go: reached by falling through: the label itself has no effect
+			return c.seq(append([]ast.Stmt{x.Stmt}, rest...), k)
 		}
 		c.fail(s, "labeled statement (only labels on statements of the function body)")
 	case *ast.BranchStmt:
@@ -693,7 +707,7 @@ func (c *codegen) desugarSwitch(x *ast.SwitchStmt) ast.Stmt {
 	}
 	if x.Tag != nil {
 		// the tag is evaluated once; it must be a side-effect free path or constant
-		if rootIdent(x.Tag) == nil {
+		if rootIdent(x.Tag) == nil && !(c.phase5 && c.pureLenTag(x.Tag)) {
 			if _, _, ok := c.cfold(x.Tag); !ok {
 				c.fail(x.Tag, "switch tag %s (only variables and field paths)", c.src(x.Tag))
 			}
@@ -832,6 +846,9 @@ func (c *codegen) decl(x *ast.DeclStmt) []string {
 				continue
 			}
 			v := c.declare(nm.Name, t)
+			if len(vs.Values) > 0 {
+				c.noteSliceAlias(v, nil, t, vs.Values[i], x)
+			}
 			lines = append(lines, fmt.Sprintf("let %s : %s := %s", v.lean, t.lean(), val))
 		}
 	}
@@ -981,7 +998,11 @@ func (c *codegen) assign1(lhs, rhs ast.Expr, def bool, at ast.Node) []string {
 				if c.phase3 {
 					c.checkNoSliceAlias(t, lhs, rhs, at)
 				}
+				if t.kind == kIface {
+					c.ifaceMoved(rhs, at)
+				}
 				v := c.declare(id.Name, t)
+				c.noteSliceAlias(v, nil, t, rhs, at)
 				return []string{fmt.Sprintf("let %s : %s := %s", v.lean, t.lean(), val)}
 			}
 		}
@@ -1016,6 +1037,10 @@ func (c *codegen) assign1(lhs, rhs ast.Expr, def bool, at ast.Node) []string {
 	if !vt.eq(t) {
 		c.fail(at, "assignment of %s to %s of type %s", vt, c.src(lhs), t)
 	}
+	if t.kind == kIface {
+		c.ifaceMoved(rhs, at)
+	}
+	c.noteSliceAlias(v, p, t, rhs, at)
 	return []string{"let " + v.lean + " : " + v.typ.lean() + " := " + update(v.lean, p, val)}
 }
 
